@@ -7,6 +7,8 @@ import CnvVerif.Model.IntervalSpec
 import CnvVerif.Lemmas.Interval
 import CnvVerif.Lemmas.Interval2
 import CnvVerif.Lemmas.IntervalTable
+import CnvVerif.Lemmas.IntersectCov
+import CnvVerif.Lemmas.FlattenCov
 namespace CnvVerif.C06
 open CnvVerif
 
@@ -99,6 +101,46 @@ theorem subtract_cov_table (a b : Table) (hb : ∀ r ∈ b, 0 ≤ r.s ∧ r.s < 
     (ha : ∀ r ∈ a, 0 ≤ r.s ∧ r.s ≤ r.e) (c : String) (p : Int) :
     cov (rowsOf (subtractTable a b) c) p ↔ (cov (rowsOf a c) p ∧ ¬ cov (rowsOf b c) p) :=
   subtractTable_cov a b hb ha c p
+
+/-- `intersection(mode=trim)` covers exactly a AND b: on one chromosome, a base is covered by the result iff it is
+    covered by the table and by some query range -- whatever overlaps, nests or repeats on either side -/
+theorem intersect_trim_cov (c : String) (table other : Table)
+    (ht : ∀ r ∈ table, r.chrom = c) (ho : ∀ r ∈ other, r.chrom = c)
+    (hwf : WFTable table) (hq : ∀ b ∈ other, 0 ≤ b.s) (p : Int) :
+    cov (intersection table other .trim) p ↔ (cov table p ∧ cov other p) :=
+  intersection_trim_cov c table other ht ho hwf hq p
+
+/-- … each piece being a row of the table clipped to one query range, carrying that row's other fields -/
+theorem intersect_trim_pieces_carry_row (c : String) (table other : Table)
+    (ht : ∀ r ∈ table, r.chrom = c) (ho : ∀ r ∈ other, r.chrom = c)
+    (hwf : WFTable table) (hq : ∀ b ∈ other, 0 ≤ b.s) :
+    ∀ x ∈ intersection table other .trim, ∃ r ∈ table, ∃ b ∈ other,
+      r.e > b.s ∧ r.s < b.e ∧ x = { r with s := max r.s b.s, e := min r.e b.e } :=
+  intersection_trim_pieces c table other ht ho hwf hq
+
+/-! ### flatten (one chromosome's rows, sorted by start; `flattenTable` applies `flattenChrom` to each chromosome) -/
+
+/-- flatten returns pieces covering exactly the union of its input … -/
+theorem flatten_cov (l : List Row) (hs : l.Pairwise (fun a b => a.s ≤ b.s)) (hwf : ∀ r ∈ l, r.s < r.e) (p : Int) :
+    cov (flattenChrom l) p ↔ cov l p := flattenChrom_cov l hs hwf p
+
+/-- … disjoint, of positive length and in order … -/
+theorem flatten_disjoint (l : List Row) (hs : l.Pairwise (fun a b => a.s ≤ b.s)) (hwf : ∀ r ∈ l, r.s < r.e) :
+    (∀ x ∈ flattenChrom l, x.s < x.e) ∧ (flattenChrom l).Pairwise (fun a b => a.e ≤ b.s) :=
+  flattenChrom_disjoint l hs hwf
+
+/-- … and cut at every input boundary: no input start or end lies strictly inside a piece -/
+theorem flatten_cut_at_every_boundary (l : List Row) (hs : l.Pairwise (fun a b => a.s ≤ b.s))
+    (hwf : ∀ r ∈ l, r.s < r.e) :
+    ∀ x ∈ flattenChrom l, ∀ r ∈ l, ¬ (x.s < r.s ∧ r.s < x.e) ∧ ¬ (x.s < r.e ∧ r.e < x.e) :=
+  flattenChrom_cut_at_boundaries l hs hwf
+
+/-- the table-level function is `flattenChrom` per chromosome (unless the table is empty or already flat, when
+    it is returned as it is) -/
+theorem flatten_table_is_per_chromosome (t : Table) (hne : t.isEmpty = false)
+    (hflat : (((t.map (·.s)).drop 1).zip (cummax (t.map (·.e)))).all (fun p => p.1 ≥ p.2) = false) :
+    flattenTable t = resortChrom ((groupByChrom (sortLex t)).flatMap (fun g => flattenChrom g.2)) := by
+  simp only [flattenTable, hne, hflat, flattenChrom, Bool.false_eq_true, if_false]
 
 /-! non-vacuity: concrete inputs meeting the hypotheses, evaluated by the kernel -/
 example : mergeChrom 0 [⟨"chr1", 0, 5, "a"⟩, ⟨"chr1", 3, 8, "b"⟩, ⟨"chr1", 8, 9, "c"⟩, ⟨"chr1", 12, 13, "d"⟩]
